@@ -31,6 +31,7 @@ class Ans:
         self.F = None
         self.ED = None
         self.E = None; self.CB = []; self.RO = None; self.LK = None; self.PM = None
+        self.GI = None       # 1: the source table was empty before any submission
         self.HL = None       # library-owned heap blocks of the decoder session: (setup, [after each submission call], after finish or None, after release)
         if self.crash:
             return
@@ -39,6 +40,8 @@ class Ans:
                 self.PM = tok[2:]
             elif tok.startswith("P"):
                 self.P = int(tok[1:])
+            elif tok.startswith("GI"):
+                self.GI = int(tok[2:])
             elif tok.startswith("HL"):
                 a, b, f, d = tok[2:].split(";")
                 self.HL = (int(a), [int(x) for x in b.split(",") if x], None if f == "-" else int(f), int(d))
